@@ -695,6 +695,19 @@ func (ex *Exec) specCall(env *Env, e *ECall) *Value {
 		// str(b): the string holding the current contents of byte slice b
 		b := arg(0)
 		return &Value{T: types.Typ[types.String], C: []*Term{ex.backingArrayRaw(env.st, b, 0), b.C[1], b.C[2]}}
+	case "unbox":
+		x := arg(0)
+		if x.I != nil {
+			return x.I
+		}
+		if len(x.C) != 2 {
+			specFail("unbox of non-interface %s", x.T)
+		}
+		v := ex.unboxTerm(x.C[1])
+		if v == nil {
+			specFail("unbox: the dynamic value of this interface is not statically known")
+		}
+		return v
 	case "haskey":
 		m, k := arg(0), arg(1)
 		has, _ := ex.mapReadRaw(env.st, m, k)
@@ -730,6 +743,11 @@ func (ex *Exec) specCall(env *Env, e *ECall) *Value {
 		}
 		f64, _ := f.Float64()
 		return &Value{T: types.Typ[types.Float64], C: []*Term{ex.fpLit(f64)}}
+	case "trunc":
+		return &Value{T: types.Typ[types.Float64], C: []*Term{tb.Raw("fp.roundToIntegral RTZ", SFP, arg(0).C[0])}}
+	case "isIntegral":
+		x := arg(0).C[0]
+		return ex.boolV(tb.Raw("fp.eq", SBool, x, tb.Raw("fp.roundToIntegral RTZ", SFP, x)))
 	case "isNaN":
 		return ex.boolV(tb.Raw("fp.isNaN", SBool, arg(0).C[0]))
 	}
@@ -885,3 +903,16 @@ func (ex *Exec) specBVBinary(op string, a, b *Term, rt types.Type, signed bool) 
 
 var _ = strings.TrimSpace
 var _ ssa.Value
+
+func (ex *Exec) unboxTerm(t *Term) *Value {
+	if v, ok := ex.boxes[t.id]; ok {
+		return v
+	}
+	if t.Op == "ite" {
+		a, b := ex.unboxTerm(t.Args[1]), ex.unboxTerm(t.Args[2])
+		if a != nil && b != nil && len(a.C) == len(b.C) {
+			return ex.iteValue(t.Args[0], a, b)
+		}
+	}
+	return nil
+}
